@@ -1567,7 +1567,7 @@ func ownGeneration(c *Ctx, r *Report, rule string) {
 			}
 			if call, ok := in.(*ssa.Call); ok {
 				if g := call.Call.StaticCallee(); g != nil && g.Pkg == fn.Pkg && len(g.Blocks) > 0 && g != fn {
-					if _, isChan := call.Type().Underlying().(*types.Chan); isChan && isDrainChan(call, 3) {
+					if _, isChan := call.Type().Underlying().(*types.Chan); isChan && isDrainChan(call, 0) {
 						return true
 					}
 				}
